@@ -1,7 +1,8 @@
 (* C08 — property theorems only. Each is closed by [exact] of a lemma of the Proofs_* files. *)
 From Coq Require Import Ascii String.
 From Coq Require Import List ZArith QArith Bool.
-From Gst Require Import C08.Codec C08.Model C08.Proofs_codec C08.Proofs_basic.
+From Gst Require Import C08.Codec C08.Model C08.Model_db C08.Model_vario C08.Model_model.
+From Gst Require Import C08.Proofs_codec C08.Proofs_basic C08.Proofs_db C08.Proofs_vario C08.Proofs_model.
 Import ListNotations.
 Local Open Scope string_scope.
 Local Open Scope list_scope.
@@ -147,6 +148,99 @@ Theorem C08_AnamHermite_rewrite : forall o o', wf_AnamHermite o ->
   file "AnamHermite" ser_AnamHermite o' = file "AnamHermite" ser_AnamHermite o.
 Proof. intros o o' H. apply rewrite_of_roundtrip. apply C08_AnamHermite_roundtrip; exact H. Qed.
 
+(* ---- Db: any number of columns (at least one) and samples; names are words; locators other than facies / gausfac.
+   The two replay hypotheses are executable: they say that Db::setNameByUID / setLocatorByUID, applied column by
+   column to the fresh Db, give back the names / locators (true for every Db met by the correspondence except the
+   refuted ones below). *)
+Theorem C08_Db_roundtrip : forall o, wf_Db o -> reload "Db" ser_Db deser_Db o = Some o.
+Proof.
+  intros o H. apply roundtrip_of_reads; [reflexivity | | apply Db_reads; exact H].
+  apply good_Db. destruct H as (_ & _ & _ & _ & Hg & _). exact Hg.
+Qed.
+Print Assumptions C08_Db_roundtrip.
+Theorem C08_Db_rewrite : forall o o', wf_Db o ->
+  reload "Db" ser_Db deser_Db o = Some o' -> file "Db" ser_Db o' = file "Db" ser_Db o.
+Proof. intros o o' H. apply rewrite_of_roundtrip. apply C08_Db_roundtrip; exact H. Qed.
+(* the text of a locator is identified back (getLocatorName / locatorIdentify), any index *)
+Theorem C08_Db_locator_text : forall l, wf_lc l -> loc_identify (loc_name l) = Some l.
+Proof. exact loc_identify_name. Qed.
+Print Assumptions C08_Db_locator_text.
+(* "facies1" starts like "f": the column comes back as external drift f1 (same for gausfac -> g) *)
+Theorem C08_Db_refuted_facies :
+  let o := {| db_nech := 1; db_names := [W "fac"]; db_locs := [Some (23%nat, 0)]; db_rows := [[Some 1%Q]] |} in
+  option_map db_locs (reload "Db" ser_Db deser_Db o) = Some [Some (3%nat, 0)].
+Proof. vm_compute. reflexivity. Qed.
+(* a column called like a provisional name of resetDims ("New-2" in first position) is renamed on reload *)
+Theorem C08_Db_refuted_names :
+  let o := {| db_nech := 1; db_names := [W "New-2"; W "a"]; db_locs := [None; None]; db_rows := [[Some 1%Q; Some 2%Q]] |} in
+  option_map db_names (reload "Db" ser_Db deser_Db o) = Some [W "New-2.1"; W "a"].
+Proof. vm_compute. reflexivity. Qed.
+(* a name with a blank is two words in the file: the reload fails *)
+Theorem C08_Db_refuted_blank :
+  let o := {| db_nech := 1; db_names := [W "Zn ppm"]; db_locs := [None]; db_rows := [[Some 1%Q]] |} in
+  reload "Db" ser_Db deser_Db o = None.
+Proof. vm_compute. reflexivity. Qed.
+
+(* ---- DbGrid: any space dimension *)
+Theorem C08_DbGrid_roundtrip : forall o, wf_DbGrid o -> reload "DbGrid" ser_DbGrid deser_DbGrid o = Some o.
+Proof.
+  intros o H. apply roundtrip_of_reads; [reflexivity | | apply DbGrid_reads; exact H].
+  apply good_DbGrid. destruct H as (_ & _ & (_ & _ & _ & _ & Hg & _)). exact Hg.
+Qed.
+Print Assumptions C08_DbGrid_roundtrip.
+Theorem C08_DbGrid_rewrite : forall o o', wf_DbGrid o ->
+  reload "DbGrid" ser_DbGrid deser_DbGrid o = Some o' -> file "DbGrid" ser_DbGrid o' = file "DbGrid" ser_DbGrid o.
+Proof. intros o o' H. apply rewrite_of_roundtrip. apply C08_DbGrid_roundtrip; exact H. Qed.
+
+(* ---- Vario: symmetric calculation, regular lags, directions not defined on a grid, every result defined;
+   any number of variables, directions, lags *)
+Theorem C08_Vario_roundtrip : forall o, wf_Vario o -> forallb good_word (vr_names o) = true ->
+  reload "Vario" ser_Vario deser_Vario o = Some o.
+Proof. intros o H Hn. apply roundtrip_of_reads; [reflexivity | apply good_Vario; exact Hn | apply Vario_reads; exact H]. Qed.
+Print Assumptions C08_Vario_roundtrip.
+Theorem C08_Vario_rewrite : forall o o', wf_Vario o -> forallb good_word (vr_names o) = true ->
+  reload "Vario" ser_Vario deser_Vario o = Some o' -> file "Vario" ser_Vario o' = file "Vario" ser_Vario o.
+Proof. intros o o' H Hn. apply rewrite_of_roundtrip. apply C08_Vario_roundtrip; assumption. Qed.
+Definition vario_witness (asym : bool) (res : list triple) : vario :=
+  {| vr_ndim := 1; vr_nvar := 1; vr_scale := Some 0%Q; vr_asym := asym; vr_names := [W "z"]; vr_vars := [[Some 2%Q]];
+     vr_dirs := [{| vd_regular := true; vd_npas := 1; vd_optcode := 0; vd_tolcode := Some 0%Q; vd_dpas := Some 1%Q;
+                    vd_toldist := Some (1#2)%Q; vd_grincr := []; vd_tolang := Some 90%Q; vd_codir := [Some 1%Q]; vd_res := res |}] |}.
+(* a covariance (asymmetric: 2 npas + 1 results per direction) is reloaded as a variogram with the first npas results *)
+Theorem C08_Vario_refuted_asym :
+  let t k := (Some (inject_Z k), Some (inject_Z k), Some (inject_Z k)) in
+  option_map (fun o => (vr_asym o, map vd_res (vr_dirs o)))
+             (reload "Vario" ser_Vario deser_Vario (vario_witness true [t 1; t 2; t 3])) = Some (false, [[t 1]]).
+Proof. vm_compute. reflexivity. Qed.
+(* an undefined result is written as 0 *)
+Theorem C08_Vario_refuted_undefined :
+  option_map (fun o => map vd_res (vr_dirs o))
+             (reload "Vario" ser_Vario deser_Vario (vario_witness false [(Some 0%Q, None, None)]))
+  = Some [[(Some 0%Q, Some 0%Q, Some 0%Q)]].
+Proof. vm_compute. reflexivity. Qed.
+
+(* ---- Model: any number of structures (isotropic, anisotropic, rotated), variables, dimensions, drifts.
+   hr, hp: which covariance types have a range / a third parameter (the library's own answer at run time). *)
+Theorem C08_Model_roundtrip : forall hr hp o, wf_Model hr hp o -> forallb good_word (md_drifts o) = true ->
+  reload "Model" ser_Model (deser_Model hr hp) o = Some o.
+Proof.
+  intros hr hp o H Hd. apply roundtrip_of_reads; [reflexivity | apply good_Model; exact Hd | apply Model_reads; exact H].
+Qed.
+Print Assumptions C08_Model_roundtrip.
+Theorem C08_Model_rewrite : forall hr hp o o', wf_Model hr hp o -> forallb good_word (md_drifts o) = true ->
+  reload "Model" ser_Model (deser_Model hr hp) o = Some o' -> file "Model" ser_Model o' = file "Model" ser_Model o.
+Proof. intros hr hp o o' H Hd. apply rewrite_of_roundtrip. apply C08_Model_roundtrip; assumption. Qed.
+(* the anisotropy coefficients times the largest range give back each range *)
+Theorem C08_Model_ranges : forall rs, rs <> [] -> Forall posd rs ->
+  map (fun c => dmul c (dmax rs)) (map (fun r => ddiv r (dmax rs)) rs) = rs.
+Proof. exact map_dmul_ddiv. Qed.
+Print Assumptions C08_Model_ranges.
+(* with a drift the means are not written: they come back as 0 *)
+Theorem C08_Model_refuted_means :
+  let o := {| md_ndim := 1; md_nvar := 1; md_field := None; md_covs := []; md_drifts := [W "Universality_Condition"];
+              md_means := [Some 5%Q]; md_covar0 := [[Some 1%Q]] |} in
+  option_map md_means (reload "Model" ser_Model (deser_Model (fun _ => true) (fun _ => false)) o) = Some [Some 0%Q].
+Proof. vm_compute. reflexivity. Qed.
+
 (* ======================================================================= non-vacuity *)
 Example C08_nonvacuous_lex :
   let rs := [RTag (W "X"); r_int "Space Dimension" 2; r_int "" 3; r_int "" ITEST; r_com "a title # with hash";
@@ -186,4 +280,54 @@ Example C08_nonvacuous_AnamHermite :
 Proof.
   split; [|vm_compute; reflexivity].
   unfold wf_AnamHermite; cbn. repeat split; auto; try (repeat constructor; vm_compute; reflexivity); try congruence.
+Qed.
+Example C08_nonvacuous_Db :
+  let o := {| db_nech := 2; db_names := [W "x"; W "z2"; W "zz"; W "sel"];
+              db_locs := [Some (0%nat, 0); Some (1%nat, 1); Some (1%nat, 0); Some (10%nat, 0)];
+              db_rows := [[Some 0%Q; Some (3#2)%Q; None; Some 1%Q]; [Some 1%Q; None; Some 2%Q; Some 0%Q]] |} in
+  wf_Db o /\ reload "Db" ser_Db deser_Db o = Some o.
+Proof.
+  split; [|vm_compute; reflexivity].
+  unfold wf_Db, wf_row; cbn. repeat split; try congruence; try (vm_compute; reflexivity);
+    repeat constructor; try congruence; try (vm_compute; reflexivity); try (vm_compute; congruence).
+Qed.
+Example C08_nonvacuous_DbGrid :
+  let d := {| db_nech := 2; db_names := [W "rank"; W "v"]; db_locs := [None; Some (1%nat, 0)];
+              db_rows := [[Some 1%Q; Some (3#2)%Q]; [Some 2%Q; None]] |} in
+  let o := {| dg_dims := [{| g_nx := 2; g_x0 := Some 10%Q; g_dx := Some (1#2)%Q; g_angle := Some 30%Q |};
+                          {| g_nx := 1; g_x0 := Some 0%Q; g_dx := Some 1%Q; g_angle := Some 0%Q |}]; dg_db := d |} in
+  wf_DbGrid o /\ reload "DbGrid" ser_DbGrid deser_DbGrid o = Some o.
+Proof.
+  split; [|vm_compute; reflexivity].
+  unfold wf_DbGrid, wf_gdim, wf_Db, wf_row; cbn. repeat split; try congruence; try (vm_compute; reflexivity);
+    repeat constructor; try congruence; try (vm_compute; reflexivity); try (vm_compute; congruence).
+Qed.
+Example C08_nonvacuous_Vario :
+  let t k := (Some (inject_Z k), Some (inject_Z k # 2)%Q, Some (inject_Z k)) in
+  let o := {| vr_ndim := 2; vr_nvar := 2; vr_scale := Some 0%Q; vr_asym := false; vr_names := [W "a"; W "b"];
+              vr_vars := [[Some 2%Q; Some (1#2)%Q]; [Some (1#2)%Q; Some 3%Q]];
+              vr_dirs := [{| vd_regular := true; vd_npas := 2; vd_optcode := 0; vd_tolcode := Some 0%Q; vd_dpas := Some 1%Q;
+                             vd_toldist := Some (1#2)%Q; vd_grincr := []; vd_tolang := Some 45%Q;
+                             vd_codir := [Some (3#5)%Q; Some (4#5)%Q]; vd_res := [t 1; t 2; t 3; t 4; t 5; t 6] |}] |} in
+  wf_Vario o /\ reload "Vario" ser_Vario deser_Vario o = Some o.
+Proof.
+  split; [|vm_compute; reflexivity].
+  unfold wf_Vario, wf_vdir, wf_triple, defined; cbn. repeat split; try congruence; try (vm_compute; reflexivity);
+    repeat constructor; try congruence; try (vm_compute; reflexivity); try (vm_compute; congruence).
+Qed.
+Example C08_nonvacuous_Model :
+  let hr := fun t => negb (t =? 0) in let hp := fun t => t =? 7 in
+  let rot := [Some (4#5)%Q; Some (3#5)%Q; Some (-3#5)%Q; Some (4#5)%Q] in
+  let o := {| md_ndim := 2; md_nvar := 1; md_field := None;
+              md_covs := [{| cv_type := 0; cv_param := Some 0%Q; cv_ranges := []; cv_rotmat := idmat 2; cv_sill := [[Some (1#2)%Q]] |};
+                          {| cv_type := 3; cv_param := Some 0%Q; cv_ranges := [Some 10%Q; Some 4%Q]; cv_rotmat := rot; cv_sill := [[Some 2%Q]] |};
+                          {| cv_type := 7; cv_param := Some (3#2)%Q; cv_ranges := [Some 5%Q; Some 5%Q]; cv_rotmat := idmat 2; cv_sill := [[Some 1%Q]] |}];
+              md_drifts := []; md_means := [Some (3#2)%Q]; md_covar0 := [[Some 1%Q]] |} in
+  wf_Model hr hp o /\ reload "Model" ser_Model (deser_Model hr hp) o = Some o.
+Proof.
+  split; [|vm_compute; reflexivity].
+  unfold wf_Model, wf_cova, posd; cbn -[idmat isotropic has_rotation].
+  repeat split; try congruence; try (vm_compute; reflexivity); try (vm_compute; congruence);
+    repeat constructor; try congruence; try (vm_compute; reflexivity); try (vm_compute; congruence);
+    try (intros; vm_compute; reflexivity); try (vm_compute; intros; discriminate).
 Qed.
